@@ -130,6 +130,31 @@ def build_harness_cov():
     stamp_set('harness_cov', dig)
     return exe if ok else None
 
+def build_harness_msan():
+    """the harness under MemorySanitizer (clang): fresh port memory stays 'uninitialised', every transmitted byte is tested; -> exe or None"""
+    dig = file_hash(repo_sources() + harness_sources()); exe = os.path.join(BUILD, 'vharness_msan')
+    if stamp_ok('harness_msan', dig): return exe if os.path.exists(exe) else None
+    inc = os.path.join(REPO, 'lltdResponder')
+    flags = (['-DNO_FLOW'] if harness_flow() == '0' else []) + (['-DVIEW_AUTOMATA=0'] if harness_view() == '0' else [])
+    rc, out = sh(['clang', '-O1', '-g', '-fsanitize=memory', '-fno-sanitize-recover=all', '-DLLTD_VERIF', '-DVMSAN', '-w', '-I' + inc, '-I' + os.path.join(VERIF, 'harness'), '-I' + BUILD] + flags
+                 + ['-o', exe, os.path.join(VERIF, 'harness/vharness.c'), os.path.join(VERIF, 'harness/flow_shim.c')] + [os.path.join(inc, f) for f in CORE] + [os.path.join(REPO, 'os/esp32/daemon/lltd_esp32.c')])
+    if rc != 0 and os.path.exists(exe): os.remove(exe)
+    stamp_set('harness_msan', dig)
+    return exe if rc == 0 else None
+
+def run_msan(text, tag):
+    """-> [(scenario, operation index, operation, what)] for every scenario the MemorySanitizer build stops in"""
+    exe = os.path.join(BUILD, 'vharness_msan')
+    d = os.path.join(BUILD, 'run'); os.makedirs(d, exist_ok=True)
+    scn = os.path.join(d, tag + '.msan.scn'); open(scn, 'w').write(text)
+    with open(scn + '.out', 'w') as o, open(scn + '.err', 'w') as e:
+        subprocess.run([exe, scn], stdout=o, stderr=e, timeout=1800)
+    res = []
+    for name, blocks in parse_out(scn + '.out').items():
+        for i, b in enumerate(blocks):
+            if b.fault: res.append((name, i, b.op, b.fault)); break
+    return res
+
 def harness_flow():
     """'1' if the Darwin frame flow and tick wiring could be sliced out of darwin-main.c"""
     try: return open(os.path.join(BUILD, 'harness.flow')).read().strip()
